@@ -466,7 +466,7 @@ func runC14(ctx *core.Ctx) {
 			for i, n := range job.ns {
 				nsStr[i] = strconv.Itoa(n)
 			}
-			res := core.RunChild("c14ladder", []string{job.fam.name, job.param, strings.Join(nsStr, ",")}, cpuLimit, cpuLimit*6+60)
+			res := core.RunChild("c14ladder", []string{job.fam.name, job.param, strings.Join(nsStr, ",")}, cpuLimit, cpuLimit*30+120)
 			rungs, started := parseRungs(res.Stdout)
 			cs.EvalN(len(rungs) * 3)
 			cs.Count("ladders_run", 1)
